@@ -495,6 +495,12 @@ func main() {
 		"Active Directory treats '=' inside a value as reserved and emits it escaped (\\= or \\3D), so a literal 'DC=' never follows an escaped comma in its output; the RFC 4514 minimal spelling with a bare '=' is run as well but only counted (dn_rfc4514_minimal_form_*), not judged",
 	)
 	r.Extra("exhaustive_subdomains", []string{"sub-authority counts 0..15", "every truncation length of the sampled SIDs"})
+	// race side run (./check builds this monitor with -race): only the workloads in which goroutines
+	// use the library at the same time; the detector's reports are filed by Finish
+	if mon.SideRace() {
+		concurrentDecoders()
+		r.Finish()
+	}
 	sidWorkload()
 	dnWorkload()
 	stateWorkload()   // state.go: neighbour sequences, reused caller buffer, held results, concurrent callers
